@@ -34,7 +34,7 @@ class C04(Spec):
     rule = ("URLs fetched through client.FetchURL / FetchUnknown against the simulator, which records every byte of every connection "
             "and counts connections to a plaintext canary port: hostile paths and queries (percent-encoded CR/LF, spaces, quotes, "
             "'..', very long), userinfo, explicit ports, fragments, IPv6-literal and other hosts that are not dialled, http:, gopher: "
-            "and scheme-less strings, redirects whose Location points at the plaintext canary or carries encoded CR/LF; WEBFINGER names as typed "
+            "and scheme-less strings, other schemes (ftp, gemini, wss, file, https+x ...) in front of hosts that would answer over TLS, typed or as a redirect target, redirects whose Location points at the plaintext canary or carries encoded CR/LF; WEBFINGER names as typed "
             "by the user (client.ResolveWebfinger): accounts carrying CR LF, spaces, '&resource=', NUL/DEL/0xFF bytes, domains with "
             "CR LF, paths, queries, '@', tabs appended, JRD answers with the self link first/second/missing/malformed. Oracle: each "
             "recorded stream parses (verified recogniser Request.parse_request) as exactly one request line, one Host and one Accept "
@@ -71,6 +71,19 @@ class C04(Spec):
                 u = "https://user:secret@%s%s/u" % (w.host(k), w.prefix)
                 w.serve("https://%s%s/u" % (w.host(k), w.prefix), netgen.ok_json({"type": "Note"}))
                 w.fetch(u)
+            elif r < 0.76:
+                # a scheme that is not https in front of a host that WOULD answer over TLS: nothing may be dialled or requested
+                sch = rng.choice(["ftp", "gemini", "wss", "ws", "file", "gopher", "https+x", "httpss", "http", "tls", "s"])
+                path = "/other-scheme%d" % rng.randrange(1000)
+                w.serve(w.url(k, path), netgen.ok_json({"type": "Note", "content": "must not be fetched"}))
+                target = sch + w.url(k, path)[len("https"):]
+                if rng.random() < 0.5:
+                    w.fetch(target)
+                else:
+                    u = w.url(k, "/redir-scheme%d" % rng.randrange(1000))
+                    w.u(target)
+                    w.serve(u, netgen.redirect(target))
+                    w.fetch(u)
             elif r < 0.85:
                 w.fetch(rng.choice(["http://" + w.canary() + "/plain", "gopher://" + w.canary() + "/x", "//" + w.host(k) + "/schemeless", w.host(k) + "/nohost",
                                     "HTTPS://" + w.host(k) + w.prefix + "/upper", "https://" + w.canary() + ":bad/x", "mailto:a@b", ""]))
